@@ -43,6 +43,19 @@ func (transaction *Transaction) UnmarshalJSON(data []byte) error {
 	if err := json.Unmarshal(data, &dto); err != nil {
 		return err
 	}
+	if dto == nil {
+		return errors.New("transaction is null")
+	}
+	for _, input := range dto.Inputs {
+		if input == nil {
+			return errors.New("transaction input is null")
+		}
+	}
+	for _, output := range dto.Outputs {
+		if output == nil {
+			return errors.New("transaction output is null")
+		}
+	}
 	id, err := generateId(dto.Inputs, dto.Outputs, dto.Timestamp)
 	if err != nil {
 		return fmt.Errorf("failed to generate id: %w", err)
@@ -59,6 +72,8 @@ func (transaction *Transaction) UnmarshalJSON(data []byte) error {
 		transaction.hasReward = true
 		transaction.rewardRecipientAddress = dto.Outputs[0].Address()
 		transaction.rewardValue = dto.Outputs[0].InitialValue()
+	} else if len(dto.Outputs) == 0 {
+		return errors.New("transaction has no output")
 	}
 	transaction.id = dto.Id
 	transaction.inputs = dto.Inputs
